@@ -2,6 +2,7 @@ package main
 
 import (
 	"fmt"
+	"github.com/sqlc-dev/doubleclick/token"
 	"strings"
 
 	"github.com/sqlc-dev/doubleclick/ast"
@@ -91,6 +92,16 @@ func (st *c07State) c07Query(idx int, q string, desc string) {
 		w.Count("skipped:identifier-with-line-break")
 		return
 	}
+	// a text with a `;` token in it (e.g. `SELECT 1; -- note`) is a script, not a query that can be embedded
+	if items, pv := safeTokenize(in); pv == "" {
+		for _, it := range items {
+			if it.Token == token.SEMICOLON {
+				w.stats.Evaluations++
+				w.Count("not-a-query:semicolon-token-inside")
+				return
+			}
+		}
+	}
 	s0, why := parseOne(q)
 	if s0 == nil {
 		w.stats.Evaluations++
@@ -132,13 +143,17 @@ func (st *c07State) c07Query(idx int, q string, desc string) {
 		if startsParen {
 			break
 		}
-		text := c.Pre + q + c.Post
+		qq := q
+		if strings.Contains(q, "--") || strings.Contains(q, "#") || strings.Contains(q, "\u2212") {
+			qq = q + "\n" // a trailing line comment must not swallow the context's closing text
+		}
+		text := c.Pre + qq + c.Post
 		sc, why := parseOne(text)
 		if sc == nil {
+			// the query parses alone but not where it is embedded: it does not "render the same" there
 			w.Count("context-not-accepted:" + c.Name + ":" + why)
-			if w.stats.Counters["context-not-accepted:"+c.Name+":"+why] == 1 {
-				w.Sample("context " + c.Name + " not accepted (" + why + "): " + trunc(text, 200))
-			}
+			w.Report(Finding{Kind: "embed", Key: "embed@" + c.Name + "@rejected", Input: inq, InputHex: hexs(in),
+				Detail: fmt.Sprintf("the query parses alone, but the embedding statement is rejected (%s): %s", why, trunc(text, 300))})
 			continue
 		}
 		Eo, ok := st.explainQuiet(sc)
